@@ -191,6 +191,9 @@ def tlc_simulate(d, module, cfg, num, depth, seed, timeout=900, marker="BEHAVIOU
     return uniq
 
 
+LAST_COV = {}
+
+
 def tlc_trace(d, module, cfg, timeout=1800):
     """trace validation run (deterministic replay); returns list of tag dicts {l, ev, tags}"""
     out, rc = tlc(d, module, cfg, workers=1, timeout=timeout)
@@ -200,6 +203,8 @@ def tlc_trace(d, module, cfg, timeout=1800):
         if line.startswith('"TAG '):
             s = json.loads(line)
             tags.append(json.loads(s[4:]))
+        elif line.startswith('"COV '):
+            LAST_COV[d] = json.loads(json.loads(line)[4:])
     st = tlc_stats(out)
     if "Error:" in out or st is None or rc != 0:
         raise Infra(f"trace validation did not complete ({module}/{cfg}):\n" + out[-5000:])
